@@ -826,6 +826,8 @@ func (f Float) LaxEqual(other Value) bool {
 		return EqInt64Float64(int64(other.AsInt16()), float64(f))
 	case INT8_FLAG:
 		return EqInt64Float64(int64(other.AsInt8()), float64(f))
+	case UINT_FLAG:
+		return EqUint64Float64(uint64(other.AsUInt()), float64(f))
 	case UINT64_FLAG:
 		return EqUint64Float64(uint64(other.AsInlineUInt64()), float64(f))
 	case UINT32_FLAG:
